@@ -353,7 +353,7 @@ def main(module, argv=None):
           f"undecided={len(undecided)} families={len(fams)} wall={wall:.1f}s exit={exit_code}")
 
     if not a.no_evidence and not a.family:
-        ev = module.evidence(facts, results) if hasattr(module, "evidence") else {}
+        ev = module.evidence(facts, results + bounded) if hasattr(module, "evidence") else {}
         samples = [{"name": r["name"], "status": r["status"], "seconds": round(r.get("seconds", 0), 4),
                     "goal": r.get("goal_text", "")[:300]} for r in results[:3] + results[-2:]]
         fuc = {}
@@ -367,7 +367,7 @@ def main(module, argv=None):
                 "obligations": len(results), "discharged": discharged,
                 "checker_cmd": f"./vcheck {prop} --tier {a.tier}",
                 "trusted_base": ev.get("trusted_base", []),
-                "samples": samples,
+                "samples": list((ev.get("coverage_extra") or {}).get("case_samples", [])) + samples,
                 "functions_under_contract": sorted(fuc.values(), key=lambda s: s["qualname"]),
                 "by_backend": by_backend,
                 "families": len(fams),
@@ -379,6 +379,7 @@ def main(module, argv=None):
                 "canaries_refuted": sum(1 for r in results if r.get("canary")),
                 "families_inside_known_findings": [r["name"] for r in excluded],
                 "explanation": ev.get("explanation", ""),
+                **(ev.get("coverage_extra") or {}),
             },
             "assumptions": ev.get("assumptions", []),
             "wall_s": round(wall, 2),
